@@ -42,6 +42,8 @@ func runC05(c *Ctx) {
 	if len(c.Unres) > 0 {
 		return
 	}
+	c.Rule("C05.timer", "the send timer is armed only around a Send: stopped after every Send and whenever the sender waits for the next item, so a POLL stream that idles between triggers is not ended by a stale timer")
+	sendTimerDiscipline(c, "C05.timer")
 	c.Rule("C05.once", "ONCE: Subscribe starts exactly one goroutine whose body is processSubscription followed unconditionally by queue.Close(), plus the sender; no registration with the match tree. sendStreamingResults: queue closed => errC <- nil and return without another Send")
 	c.Rule("C05.drain", "coalesce.Next never reports closed while items are pending (closed arm with Len()==1 retries next())")
 	c.Rule("C05.poll", "processPollingSubscription: a walk precedes the loop; after each successful Recv exactly one walk happens before the next Recv; io.EOF => errC <- nil, return; other error => errC <- that error, return")
